@@ -1,6 +1,7 @@
 package main
 
 import (
+	"encoding/hex"
 	"fmt"
 	"regexp"
 	"strconv"
@@ -259,10 +260,33 @@ func emitAnalysisFull(prop, id, engine, schema string, q QStmt, prefix string, p
 	}
 	res.In["withSeedQueries"] = prefix != ""
 	impl := res.Impl
+	oracle := ""
 	if impl["err"] == "" {
-		impl["go"] = goObservation(engine, schema, prefix+q.Text(), q.Name, prepared)
+		g := goObservation(engine, schema, prefix+q.Text(), q.Name, prepared)
+		impl["go"] = g
+		if prop == "C07" && g["ok"] == true && strings.Contains(q.SQL, "*") && !strings.Contains(q.SQL, "sqlc.") && !strings.Contains(q.SQL, "@") {
+			// the same query with the explicit list sqlc itself wrote: same API
+			if hexSQL, ok := g["sql"].(string); ok {
+				if emb, err := hex.DecodeString(hexSQL); err == nil && strings.TrimSpace(string(emb)) != strings.TrimSpace(q.SQL) {
+					q2 := q
+					q2.SQL = strings.TrimSuffix(strings.TrimSpace(string(emb)), ";")
+					e := goObservation(engine, schema, prefix+q2.Text(), q.Name, prepared)
+					if e["ok"] == true {
+						for _, k := range []string{"results", "rowStruct", "params", "paramsStruct", "scan"} {
+							if jsonStr(g[k]) != jsonStr(e[k]) {
+								oracle = fmt.Sprintf("the query written with * and with the explicit list generate different APIs: %s is %s with *, %s with the list", k, jsonStr(g[k]), jsonStr(e[k]))
+								break
+							}
+						}
+						impl["explicit"] = J{"ok": true, "results": e["results"]}
+					} else {
+						impl["explicit"] = J{"ok": false, "err": e["err"]}
+					}
+				}
+			}
+		}
 	}
-	emit(Case{ID: id, Kind: "analysis", In: res.In, Impl: impl, Known: q.Known, Tags: append(q.Tags, engine)})
+	emit(Case{ID: id, Kind: "analysis", In: res.In, Impl: impl, Oracle: oracle, Known: q.Known, Tags: append(q.Tags, engine)})
 }
 
 
